@@ -12,10 +12,12 @@ Fixpoint tab_aes (t : list (bytes * bytes * bytes * bytes * bytes)) (k n d a : b
   | (k', n', d', a', r) :: t' =>
       if list_eqb k k' && list_eqb n n' && list_eqb d d' && list_eqb a a' then r else tab_aes t' k n d a
   end.
-Fixpoint tab_hash (t : list (bytes * Z * bytes * bytes)) (fam : bytes) (n : Z) (d : bytes) : bytes :=
+(* an entry without data (null) answers for any data: used for the 64 KiB cases to keep the request small *)
+Fixpoint tab_hash (t : list (bytes * Z * option bytes * bytes)) (fam : bytes) (n : Z) (d : bytes) : bytes :=
   match t with
   | [] => []
-  | (f', n', d', r) :: t' => if list_eqb fam f' && (n =? n') && list_eqb d d' then r else tab_hash t' fam n d
+  | (f', n', d', r) :: t' =>
+      if list_eqb fam f' && (n =? n') && match d' with Some d' => list_eqb d d' | None => true end then r else tab_hash t' fam n d
   end.
 Definition blocks_rnd (blocks : list bytes) (n : nat) (k : Z) : bytes := slice_to (nth n blocks []) k.
 
@@ -23,12 +25,13 @@ Definition as_aes_entry (c : cbor) : option (bytes * bytes * bytes * bytes * byt
   match c with
   | CArray [CBytes k; CBytes n; CBytes d; CBytes a; CBytes r] => Some (k, n, d, a, r)
   | _ => None end.
-Definition as_hash_entry (c : cbor) : option (bytes * Z * bytes * bytes) :=
-  match c with
-  | CArray [f; CUint n; CBytes d; CBytes r] => match as_bytes f with Some f => Some (f, n, d, r) | None => None end
-  | _ => None end.
 Definition as_opt_bytes (c : cbor) : option (option bytes) :=
   match c with CSimple 22 => Some None | CBytes b => Some (Some b) | CText b => Some (Some b) | _ => None end.
+Definition as_hash_entry (c : cbor) : option (bytes * Z * option bytes * bytes) :=
+  match c with
+  | CArray [f; CUint n; d; CBytes r] =>
+      match as_bytes f, as_opt_bytes d with Some f, Some d => Some (f, n, d, r) | _, _ => None end
+  | _ => None end.
 Definition as_call (key : bytes) (c : cbor) : option call :=
   match c with
   | CArray [CBytes pt; kid; h; kw] =>
